@@ -68,23 +68,41 @@ def allCands (inp : Input) : List Str :=
   let maxD := (P.map (pathDepth ·.1)).foldl max 0
   (P.map (q0 inp) ++ P.flatMap (fun p => candsOf maxD p.1)).eraseDups
 
-def WF.imports (inp : Input) : Bool :=
+/-- clauses A, Q, D of WF.imports -/
+def WF.importsCore (inp : Input) : Bool :=
   let P := runPkgs inp
   let maxD := (P.map (pathDepth ·.1)).foldl max 0
   let lv := List.range (maxD + 1)
   -- A: full sanitised paths pairwise distinct
   nodupB (P.map fun p => uniqueName p.1 maxD) &&
-  -- X: candidates of different packages at different levels differ (levels beyond a path's depth
-  -- repeat its last candidate and are not counted again: `log` is `log` at every level)
-  (P.all fun p => P.all fun q => p.1 = q.1 ||
-    lv.all fun l => lv.all fun l' => l = l' || l > pathDepth p.1 || l' > pathDepth q.1 ||
-      uniqueName p.1 l ≠ uniqueName q.1 l') &&
   -- Q: a candidate of level ≥ 1 is nobody else's initial qualifier (levels beyond a path's depth
   -- repeat its last candidate: a one-component path such as `sync` has level-0 candidates only)
   (P.all fun p => P.all fun q => p.1 = q.1 ||
     lv.all fun l => l = 0 || l > pathDepth q.1 || uniqueName q.1 l ≠ q0 inp p) &&
   -- D: everything that can become a qualifier is a usable identifier
   (allCands inp).all validName
+
+/-- clauses X and T of WF.imports: static conditions under which conflict resolution is known
+    to end with pairwise distinct qualifiers.  The checks use the exact, per-input reflected
+    checker `Alloc.importsOK` instead (`WF.dyn`); X and T remain as the documented static
+    approximation. -/
+def WF.importsSep (inp : Input) : Bool :=
+  let P := runPkgs inp
+  let maxD := (P.map (pathDepth ·.1)).foldl max 0
+  let lv := List.range (maxD + 1)
+  -- X: candidates of different packages at different levels differ.  Levels beyond a path's depth
+  -- repeat its last candidate and *are* counted: the standard `os`, pushed to level 1 by a nested
+  -- conflict, is still `os` there and can meet the level-0 name of `z/os` (an attempt to relax this
+  -- was refuted by the fast sweep: two imports called os)
+  (P.all fun p => P.all fun q => p.1 = q.1 ||
+    lv.all fun l => lv.all fun l' => l = l' || uniqueName p.1 l ≠ uniqueName q.1 l') &&
+  -- T: ties are prefix-closed: two packages whose candidates differ at one level differ at every
+  -- higher level (F-25: `p/ab/c` and `q/a/bc` differ at level 0 and are both `abc` at level 1;
+  -- the pending import is invisible to `searchImport`, so both can be given `abc`)
+  (P.all fun p => P.all fun q => p.1 = q.1 ||
+    lv.all fun l => uniqueName p.1 (l + 1) ≠ uniqueName q.1 (l + 1) || uniqueName p.1 l = uniqueName q.1 l)
+
+def WF.imports (inp : Input) : Bool := WF.importsCore inp && WF.importsSep inp
 
 /-- `x ∈ V(b)`: `b` followed by any mix of `MoqParam` and decimal digits -/
 def inVAux (suffix : Str) : Nat → Str → Bool
@@ -135,7 +153,7 @@ def lateQuals (inp : Input) (m : MethodIn) : List Str :=
     let path := stripVendorPath p.path
     ((List.range (pathDepth path + 1)).map (uniqueName path)).filter (· ≠ q0 inp (path, p.name))
 
-def WF.names (inp : Input) : Bool :=
+def WF.namesGen (late : Bool) (inp : Input) : Bool :=
   let cands := allCands inp
   let dst := dstPath inp
   (reqIfaces inp).all fun i =>
@@ -144,11 +162,15 @@ def WF.names (inp : Input) : Bool :=
       match m.bases with
       | none => false
       | some bs => scopeNamesOK cands (unqualIdents dst m.allTys ++ tpNames) bs &&
-                   -- (8) no base name is a name a later conflict can give to one of this method's packages
-                   bs.all fun b => !(b ∈ lateQuals inp m)) &&
+                   -- (8) no base name is a name a later conflict can give to one of this method's
+                   -- packages (static over-approximation of F-24; `WF.dyn` uses the exact checker)
+                   (!late || bs.all fun b => !(b ∈ lateQuals inp m))) &&
     -- (7) type parameters: not spelled like any possible qualifier, distinct
     (tpNames.all fun t => !(t ∈ cands)) &&
     scopeNamesOK cands [] tpNames
+
+def WF.names (inp : Input) : Bool := WF.namesGen true inp
+def WF.namesCore (inp : Input) : Bool := WF.namesGen false inp
 
 /-- WF.generic: `populateImports` sees every package the constraints mention (it has no case
     for unions).  (The clause "type-parameter names survive `Exported`" was dropped with the
@@ -256,5 +278,12 @@ def WF.base (inp : Input) : Bool :=
 
 def WF.all (inp : Input) : Bool :=
   WF.base inp && WF.imports inp && WF.names inp && WF.generic inp && WF.ensure inp && WF.dest inp
+
+/-- the static clauses the reflected checkers do not see; the checks assert the properties of the
+    real moq on the inputs satisfying `WF.core` on which the model's own output passes the
+    reflected checkers `Alloc.importsOK` and `Alloc.namesOK` (sound: `c12_checker_sound`, …): exact
+    where `WF.importsSep` and clause 8 of `WF.names` over-approximate. -/
+def WF.core (inp : Input) : Bool :=
+  WF.base inp && WF.importsCore inp && WF.namesCore inp && WF.generic inp && WF.ensure inp && WF.dest inp
 
 end Moq
